@@ -568,7 +568,9 @@ func (h *harness) run(loggers *memLoggers) {
 				}
 			}
 		}
-		res.RootExitedAtStop = rootRegistered && !rootAlive
+		// only a root with the x flag ever exits by itself; for a deadline the registry is read after the
+		// deadline fired, when the library may already have killed a root that was running
+		res.RootExitedAtStop = cs.Shape.has('x') && rootRegistered && !rootAlive
 		switch {
 		case ready:
 			res.Phase = "ready"
